@@ -455,6 +455,12 @@ class ChainWorld(World):
             cl["trusted"] = N
             cl["history"].append(digest(N))
             self.run.probe("client_adopted_root")
+            # read-back: what was just persisted loads as what is now trusted
+            rb = self.calls.raw("load_metadata_from_file", path)
+            if not rb.ok or not typed_eq(rb.value, N) or refcanon(rb.value) != refcanon(N):
+                self.run.violate(("C04", "C08"), "reload-differs", "the root just persisted does not load back as the root just adopted (%r)"
+                                 % (rb if not rb.ok else "different value",), "reload-differs")
+                return
         else:
             self.run.probe("client_rejected_offer")
 
